@@ -77,7 +77,13 @@ def op (st : St) (toks : List String) : St × String :=
       let isLive := st.live.any (·.1 == id)
       let want := if isLive then "ok" else if st.tomb.contains id then "deleted" else "notfound"
       let st' := if isLive then { st with live := st.live.filter (·.1 != id), tomb := id :: st.tomb } else st
-      if allOutcomes post want then (st', if want == "ok" then "ok removed=1" else "ok rejected=1")
+      -- a rejected Remove must be an error in every kind; whether it reads "already deleted" or
+      -- "not found" depends on when the kind purged its tombstones (HNSW also purges when a new
+      -- vertex meets a soft-deleted entry point) and is not part of the property
+      let rejectedOk := post.length == 5 && post.all fun t => match t.splitOn ":" with
+        | [_, o] => o == "deleted" || o == "notfound" | _ => false
+      if allOutcomes post want || (want != "ok" && rejectedOk) then
+        (st', if want == "ok" then "ok removed=1" else "ok rejected=1")
       else (st', s!"SPECFAIL remove: expected {want} from every kind, got {post}")
     | none => (st, "BADOP remove")
   | ["flush"] =>
